@@ -156,8 +156,9 @@ def matrix(extra_pairs=()):
     for name in sorted(os.listdir(base)):
         dd = os.path.join(base, name)
         if os.path.isdir(dd) and os.path.exists(os.path.join(dd, "patch.diff")):
-            prop = json.load(open(os.path.join(dd, "meta.json")))["property"]
-            jobs.append((name, prop))
+            prop = json.load(open(os.path.join(dd, "meta.json"))).get("property")
+            if prop:                     # negative controls carry no property: they are run by explicit (name:property) pairs
+                jobs.append((name, prop))
     jobs += list(extra_pairs)
     only = [x for x in os.environ.get("MATRIX_ONLY", "").split(",") if x]      # restrict to these properties, merge into the file
     res = {}
@@ -167,7 +168,7 @@ def matrix(extra_pairs=()):
             res = json.load(open(os.path.join(base, "results.json")))
         except Exception:  # noqa
             res = {}
-    with cf.ThreadPoolExecutor(max_workers=2) as ex:
+    with cf.ThreadPoolExecutor(max_workers=int(os.environ.get('MATRIX_JOBS', '2'))) as ex:
         futs = {ex.submit(runwt, os.path.join(base, n), p): (n, p) for n, p in jobs}
         for f in cf.as_completed(futs):
             n, p = futs[f]
